@@ -106,7 +106,7 @@ func (o Options) Len() int {
 	length := 0
 
 	for _, v := range o {
-		length += 2 + 2 + len(v.value)
+		length += 2 + 2 + int(v.length)
 	}
 
 	return length
